@@ -1184,6 +1184,7 @@ def must_call_census(ctx, crate, files):
                       where_of(b))
     ctx.floor("functions compared with the must-call table", n, 1)
     loop_must_call_census(ctx, crate, files)
+    closure_must_call_census(ctx, crate, files)
     co_exec_census(ctx, crate, files)
     return_census(ctx, crate, files)
     ghost_census(ctx, crate, files)
@@ -1228,6 +1229,7 @@ def loop_must_calls(crate, b):
     The key names the loop by what it iterates (`<source call>#k`), not by position."""
     out = {}
     seen = {}
+    raw = []
     for lp in iterator_loops(b):
         sb_, it, none_e, some_e, cs_ = lp
         if cs_ is None:
@@ -1263,6 +1265,17 @@ def loop_must_calls(crate, b):
             if b.must_pass(some_e, {head}, {c.bb}):
                 names.add((nm, tgt))
         out["%s#%d" % (src, k)] = names
+        raw.append((lp, "%s#%d" % (src, k), body))
+    # an inner loop that every iteration of the outer loop runs through: what each of ITS iterations always calls is owed by the
+    # outer iteration too, zero or more times (`*name`) — `for child { for st in acc { .. match(child, st) .. } }`: a `continue` in
+    # front of the inner loop skips the child for every accumulated state
+    for lp, key, body in raw:
+        sb_, it, none_e, some_e, cs_ = lp
+        for lp2, key2, body2 in raw:
+            if lp2 is lp or lp2[0] not in body or lp[0] in body2 and len(body2) >= len(body):
+                continue
+            if b.must_pass(some_e, {cs_.bb}, {lp2[0]}):
+                out[key] = set(out[key]) | {("*" + nm, tgt) for nm, tgt in out.get(key2, ()) if not nm.startswith("*")}
     return out
 
 
@@ -1282,6 +1295,78 @@ def loop_must_call_table(crate):
             if w:
                 tab["%s@%s" % (k, lk)] = w
     return tab
+
+
+def closure_must_calls(crate, f):
+    """{name: (number of closures of f in which the weighty crate-local function `name` runs on every path to a normal return,
+    number of closures of f that call it at all)}"""
+    must, anyc = {}, {}
+    for cb in f.all_bodies():
+        if cb is f or cb.kind != "Closure":
+            continue
+        for nm, t in set((nm_, t_) for nm_, t_ in _direct_must_calls(crate, cb)):
+            must.setdefault(nm, [0, t])[0] += 1
+        names_here = set()
+        for c in cb.calls:
+            if cb.blocks[c.bb]["cleanup"] or not c.callee:
+                continue
+            t = crate.bodies.get(c.callee.target)
+            if t is not None and t.name and t.kind != "Closure":
+                names_here.add(t.name)
+        for nm in names_here:
+            anyc[nm] = anyc.get(nm, 0) + 1
+    return must, anyc
+
+
+def closure_must_call_table(crate):
+    _direct_must_calls(crate, next(iter(crate.fns())))
+    per = {}
+    for b in crate.fns():
+        if b.kind == "Closure" or b.auto_derived or not (b.file or "").startswith("src/") or not b.name or (b.file or "").endswith("tst.rs") or (b.file or "").endswith("/check.rs"):
+            continue
+        per.setdefault(_mc_key(b), []).append(b)
+    tab = {}
+    for k, bs in per.items():
+        if len(bs) != 1:
+            continue
+        must, _ = closure_must_calls(crate, bs[0])
+        w = {nm: n for nm, (n, t) in must.items() if t is None or _weighty(t)}
+        if w:
+            tab[k] = w
+    return tab
+
+
+def closure_must_call_census(ctx, crate, files):
+    """CMC: MC for the closures of a function.  A weighty call that ran on every path of k closures of f in the reviewed tree still
+    does so in k closures — unless fewer closures of f call it at all (a closure turned into a loop or a helper puts no obligation).
+    `|x| { if let Some(hit) = memo.get(..) { return hit } ..; find(x) }`: the per-element step gained a path that skips its work."""
+    ref = (_MUSTCALL or {}).get("clos:" + (ctx.cur_cfg or "default")) or (_MUSTCALL or {}).get("clos:default") or {}
+    if not ref:
+        raise AnchorMissing("mustcall.json", "no closure table")
+    by_key, by_name = {}, {}
+    for b in crate.fns():
+        if b.kind == "Closure" or not b.name:
+            continue
+        by_key.setdefault(_mc_key(b), []).append(b)
+        by_name.setdefault(b.name, []).append(b)
+    n = 0
+    for k, want in sorted(ref.items()):
+        f, name = k.rsplit("::", 1)
+        if f not in files:
+            continue
+        bs = by_key.get(k) or by_name.get(name, [])
+        if len(bs) != 1:
+            continue
+        b = bs[0]
+        must, anyc = closure_must_calls(crate, b)
+        for w, cnt in sorted(want.items()):
+            n += 1
+            now = must.get(w, [0, None])[0]
+            calling = anyc.get(w, 0)
+            ctx.check(now >= min(cnt, calling), "closure-early-exit:%s:%s" % (fkey(b), w), "the closures of %s that always called %s still do (%d)" % (short(b.id), w, now),
+                      "a closure of %s calls %s on some of its paths only (%d closure(s) call it, it runs on every path of %d; in the reviewed tree of %d): the per-element step has gained an early exit / cached answer in front of work it always did" % (short(b.id), w, calling, now, cnt),
+                      where_of(b))
+    ctx.info("closure must-call pairs compared: %d" % n)
 
 
 def loop_must_call_census(ctx, crate, files):
@@ -1330,8 +1415,10 @@ def loop_must_call_census(ctx, crate, files):
             if t is not None:
                 got |= (must_calls(crate, t, weighty_only=False) or set())
         for w in want:
-            if w not in names_now or w == name:
+            if w.lstrip("*") not in names_now or w.lstrip("*") == name:
                 continue
+            if w.startswith("*") and w[1:] in got:
+                continue        # (the inner loop was flattened: the call is now made directly on every iteration)
             ctx.check(w in got, "skipped-iteration:%s:%s:%s" % (fkey(b), lk, w), "every iteration of the loop over %s in %s still calls %s" % (lk, short(b.id), w),
                       "an iteration of the loop over %s in %s can now go on to the next element without calling %s, which every iteration did in the reviewed tree: a `continue` / guard was put in front of the loop's work, so some elements are skipped" % (lk, short(b.id), w),
                       where_of(b))
